@@ -41,6 +41,11 @@ type SyncSpec struct {
 	N       int64 `json:"n"`
 	Leaders []EP  `json:"leaders"`
 	Acts    []Act `json:"acts,omitempty"` // arrive: what the gateway does after this sync
+	// what else the polled server's ServerInfo looks like: per endpoint (aligned with Leaders) the lastHeartbeat stamp -
+	// 0: the server's own clock, 1: the zero time, else seconds relative to a fixed epoch (clocks of different servers
+	// disagree, step back, are far off) - and the order of the endpoints (0: as the server sorts them, else a shuffle seed)
+	Stamps []int64 `json:"stamps,omitempty"`
+	Perm   int64   `json:"perm,omitempty"`
 }
 
 type Op struct {
